@@ -153,14 +153,17 @@ func (s *Store[H]) Stop(ctx context.Context) error {
 	// signal to prevent further writes to Store
 	select {
 	case s.writes <- nil:
-		s.cancel()
 	case <-ctx.Done():
 		return ctx.Err()
 	}
 	// wait till it is done writing
+	// NOTE: the flush context is canceled only afterwards, s.t. headers queued before Stop
+	// are still fully processed (head advanced and persisted) and not just dumped on disk
 	select {
 	case <-s.writesDn:
+		s.cancel()
 	case <-ctx.Done():
+		s.cancel()
 		return ctx.Err()
 	}
 
